@@ -59,8 +59,11 @@ Definition allowed_font (e : effect) : bool :=
    reachable from font.Font through its receiver, a parameter or an expression - i.e. not through an object it has
    allocated itself (plain byte/number slices are not followed).  A query method with a constructor-like name
    (CFF2.LoadGlyph filling a scratch field of the shared CFF2) shows up here.  Reviewed exceptions:
-   (callee, caller, reason); none on the current tree. *)
-Definition reviewed_late_calls : list (string * string * string) := [].
+   (callee, caller, reason). *)
+Definition reviewed_late_calls : list (string * string * string) := [
+  ("font.sanitizeCmap4", "font.ProcessCmap",
+   "filters in place (cm[:0] + append) the cmap4 slice that ProcessCmap has just obtained from newCmap4 for this very record; nothing else refers to it yet")
+].
 Definition late_call_ok (c : string * string) : bool :=
   existsb (fun r => match r with (f, g, _) => String.eqb f (fst c) && String.eqb g (snd c) end) reviewed_late_calls.
 
